@@ -20,6 +20,7 @@ Inductive auto := ANone | ACreate | AUpdate.                          (* autoCre
 Record field := mk_field {
   f_name : string;            (* Go field name *)
   f_col0 : string;            (* column the naming strategy / column tag gives *)
+  f_coltag : bool;            (* an explicit `column:` tag is present *)
   f_dash : option dash;
   f_ro : option bool;         (* Some true = "->", Some false = "->:false" *)
   f_rw : option wperm;
@@ -45,9 +46,10 @@ Definition perm (f : field) : bool * bool * bool :=
 Definition creatable f := fst (fst (perm f)).
 Definition updatable f := snd (fst (perm f)).
 Definition readable f := snd (perm f).
-(* "-" and "-:all" clear DataType: the field gets no DBName *)
+(* "-" and "-:all" clear DataType: the field gets no DBName from the naming strategy; an explicit
+   `column:` tag still names one (the column then carries no permission at all) *)
 Definition has_col (f : field) : bool :=
-  match f_dash f with Some DDash | Some DAll => false | _ => true end.
+  f_coltag f || match f_dash f with Some DDash | Some DAll => false | _ => true end.
 Definition f_db (f : field) : string := if has_col f then f_col0 f else "".
 
 Definition col_fields (s : schema) : list field := filter has_col s.
